@@ -19,8 +19,9 @@ TStress == /\ Ev("crash.stress") /\ UNCHANGED <<done, seen>>
 \* the run covered every message type in both phases
 TCoverage == /\ Ev("crash.coverage") /\ UNCHANGED <<done, seen>>
              /\ Flag(/\ \A m \in MsgTypes : \E c \in Classes, p \in ServerPhases : <<m, c, p>> \in seen
-                     /\ Cardinality({c \in Classes : <<"NewProxy", c, "used">> \in seen}) >= 3,
-                     "a message type of the alphabet was never sent (or no accepted definition was used for traffic)")
+                     /\ Cardinality({c \in Classes : <<"NewProxy", c, "used">> \in seen}) >= 3
+                     /\ \A u \in UserInputs : Cardinality({c \in Classes : <<u, c, "user-port">> \in seen}) >= 3,
+                     "a message type of the alphabet was never sent (or no accepted definition was used for traffic, or a public port got no hostile user input)")
 \* the client-side run covered every message type on the control channel and every other place a server may speak
 TCoverageClient == /\ Ev("crash.coverage.client") /\ UNCHANGED <<done, seen>>
                    /\ Flag(/\ \A m \in MsgTypes : \E c \in Classes : <<m, c, "to-client-control">> \in seen
